@@ -268,6 +268,17 @@ class Verifier:
         I.cur_line = fn.end_lineno
         post_env = dict(entry_env)
         post_env["__module__"] = con.file
+        # ghost updates on normal return: {"self.<ghost attr>": expr}.  The
+        # real body cannot write a ghost attribute; the contract says what
+        # the function's completion means for it (a definition, listed among
+        # the assumptions)
+        for gpath, gexpr in con.extra.get("ghost_set", {}).items():
+            root, _, attr = gpath.partition(".")
+            gobj = post_env.get(root)
+            if gobj is None or not hasattr(gobj, "attrs") or "." in attr:
+                raise Unsupported(f"ghost_set path {gpath}")
+            gobj.attrs[attr] = I.eval_spec(gexpr, post_env)
+            I.stats.lib_used.add(f"ghost-definition:{con.func}:{gpath}")
         for anchor, _callee, hexpr in con.hints:
             if anchor == "at_end":
                 h = I.eval_spec(hexpr, post_env)
